@@ -421,3 +421,15 @@ Proof.
   - repeat split; vm_compute; intuition discriminate.
   - vm_compute. repeat split.
 Qed.
+
+(* ------------------------------------------------------------------ *)
+(* 8. the code before the clamp: 111 FEC packets panic, in EncodeFec and in the interceptor's Write *)
+Definition two_pkts : list pkt := [hdr12 128 7 ++ [9]; hdr12 128 8 ++ [10]].
+
+Theorem unclamped_111_refuted :
+  snd (encode_fec (new_encoder 115 7) two_pkts 111) = Panic /\
+  (exists r0 r1, snd (encode_fec2 (new_encoder 115 7) two_pkts 111) = Ok (Some [r0; r1])) /\
+  i_run (new_icpt 2 111 115 7 [17; 34; 51; 68]) two_pkts = [Ok [OMedia (hdr12 128 7 ++ [9])]; Panic].
+Proof.
+  split; [vm_compute; reflexivity|]. split; [do 2 eexists; vm_compute; reflexivity|vm_compute; reflexivity].
+Qed.
